@@ -126,6 +126,18 @@ def run_c09(tier):
         case = {"args": ["metadata", v]}
         expect_exc("load_entity_schema", _call(index.load_entity_schema, "metadata", v, EntityType.request), index.UnknownEntity, case, (v,))
         expect_exc("load_request_schema", _call(index.load_request_schema, 3, v), index.UnknownEntity, case, (v,))
+    # 3b. arguments of the wrong Python type that are NOT equal to a valid key (numeric strings, non-integral floats,
+    # infinities): they are "any other key / version" and must raise the documented error, not be coerced to a
+    # neighbouring entry.  (3.0 == 3 and True == 1 are Python's dict semantics and are deliberately not used.)
+    for k in ("3", " 3", "1_8", 3.9, -0.5, 87.9, 0.5, float("inf"), float("-inf"), float("nan"), b"3", None, (3,)):
+        case = {"args": [repr(k)]}
+        for fn in (index.load_request_schema, index.load_response_schema):
+            expect_exc(fn.__name__ + "/ill-typed-key", _call(fn, k, 0), index.UnknownAPIKey, case, (repr(k),))
+        expect_exc("load_payload_module/ill-typed-key", _call(index.load_payload_module, k, 0, EntityType.request), index.UnknownAPIKey, case, (repr(k),))
+    for v in ("12", "0", 12.99, -0.9, 0.5, float("inf"), float("nan"), None, b"1"):
+        case = {"args": ["metadata", repr(v)]}
+        expect_exc("load_entity_schema/ill-typed-version", _call(index.load_entity_schema, "metadata", v, EntityType.request), index.UnknownEntity, case, (repr(v),))
+        expect_exc("load_request_schema/ill-typed-version", _call(index.load_request_schema, 3, v), index.UnknownEntity, case, (repr(v),))
     # 4. the generator's own index builder on the current package equals the shipped maps
     acc.add("evaluations")
     try:
